@@ -159,12 +159,25 @@ theorem parse_export_dh (F : NumFmt K) (hF : F.LawfulOn R) (sd : K → K) (pos :
     (h1 : h.from_ ≠ "") (h2 : h.to ≠ "") (hr : R h.val ∧ (pos h.dist = true → R h.dist) ∧ (pos h.dist = false → R h.stdev))
     (hpos : pos h.dist = false → h.dist = F.zero)          -- `dist > 0` fails only for dist = 0 (parser rejects dist < 0)
     (hsd : pos h.dist = true → h.stdev = sd h.dist) :      -- a distance was given: stdev is the implied one
-    parseDh F sd (exportDh F true pos h).2 = .ok h := by
+    parseDh F sd (exportDh F true pos false h).2 = .ok h := by
   obtain ⟨from_, to, val, dist, stdev, extern⟩ := h
   simp only at h1 h2 hpos hsd hr
   have q1 := hF.rd_fmt val hr.1
   cases hp : pos dist <;> by_cases e5 : extern = "" <;>
   simp [exportDh, parseDh, reach, route, rdOr, q1, bind, Except.bind, pure, Except.pure, hp, e5, h1, h2]
+  all_goals simp_all [hF.rd_fmt]
+
+/-- the export since 9f04c51 writes the standard deviation always: nothing is assumed about how it relates to `dist` -/
+theorem parse_export_dh_always (F : NumFmt K) (hF : F.LawfulOn R) (sd : K → K) (pos : K → Bool) (h : HDiff K)
+    (h1 : h.from_ ≠ "") (h2 : h.to ≠ "") (hr : R h.val ∧ (pos h.dist = true → R h.dist) ∧ R h.stdev)
+    (hpos : pos h.dist = false → h.dist = F.zero) :
+    parseDh F sd (exportDh F true pos true h).2 = .ok h := by
+  obtain ⟨from_, to, val, dist, stdev, extern⟩ := h
+  simp only at h1 h2 hpos hr
+  have q1 := hF.rd_fmt val hr.1
+  have q2 := hF.rd_fmt stdev hr.2.2
+  cases hp : pos dist <;> by_cases e5 : extern = "" <;>
+  simp [exportDh, parseDh, reach, route, rdOr, q1, q2, bind, Except.bind, pure, Except.pure, hp, e5, h1, h2]
   all_goals simp_all [hF.rd_fmt]
 
 theorem mapM_rd_fmt (F : NumFmt K) (hF : F.LawfulOn R) (xs : List K) (hx : ∀ x ∈ xs, R x) :
